@@ -44,16 +44,26 @@ WIDE_FILES = ('falcon/app.py', 'falcon/request.py', 'falcon/response.py', 'falco
               'falcon/util/uri.py', 'falcon/middleware.py', 'falcon/media/urlencoded.py')
 
 
+def app_yield_point():
+    """Called by generated application code between two of its own steps (e.g. an error object is built, logged,
+    then raised): a place where the controlled scheduler may switch threads."""
+    return None
+
+
+def _is_app_yield(code):
+    return code.co_name in ('app_yield_point', 'na_handler') and code.co_filename.endswith('c19.py')
+
+
 def narrow(code):
     fn = code.co_filename
     if fn == '<string>':
         return code.co_name == 'find'
-    return fn.endswith('falcon/routing/compiled.py') and code.co_name in ROUTER_FUNCS
+    return (fn.endswith('falcon/routing/compiled.py') and code.co_name in ROUTER_FUNCS) or code.co_name == 'app_yield_point' and fn.endswith('c19.py')
 
 
 def wide(code):
     fn = code.co_filename
-    return fn == '<string>' or fn.endswith(WIDE_FILES) or (code.co_name == 'na_handler' and fn.endswith('c19.py'))
+    return fn == '<string>' or fn.endswith(WIDE_FILES) or _is_app_yield(code)
 
 
 def narrow_reconf(code):
@@ -66,7 +76,7 @@ def narrow_reconf(code):
         return code.co_name in ROUTER_FUNCS + ('add_route',)
     if fn.endswith('falcon/media/handlers.py'):
         return True
-    return code.co_name == 'na_handler' and fn.endswith('c19.py')
+    return _is_app_yield(code)
 
 
 def asgi_request_lines(code):
@@ -142,8 +152,11 @@ def build_app(asgi=False, flaky=False, variant=0, applock=False):
 
         class Err:
             def on_get(self, req, resp, code):
-                raise falcon.HTTPError(400 + code % 100, title='T' + req.get_param('q', default=''),
-                                       description=req.get_header('X-Tok'))
+                tok = req.get_header('X-Tok')
+                err = falcon.HTTPError(400 + code % 100, title='T' + req.get_param('q', default=''), description=tok,
+                                       href='https://docs.example/' + str(tok), href_text='about ' + str(tok))
+                app_yield_point()           # e.g. the error is written to an audit log before it is raised
+                raise err
 
         class Fl:
             def on_get(self, req, resp, v):
@@ -180,8 +193,11 @@ def build_app(asgi=False, flaky=False, variant=0, applock=False):
 
         class Err:
             async def on_get(self, req, resp, code):
-                raise falcon.HTTPError(400 + code % 100, title='T' + req.get_param('q', default=''),
-                                       description=req.get_header('X-Tok'))
+                tok = req.get_header('X-Tok')
+                err = falcon.HTTPError(400 + code % 100, title='T' + req.get_param('q', default=''), description=tok,
+                                       href='https://docs.example/' + str(tok), href_text='about ' + str(tok))
+                await req.stream.read()     # the responder waits for something between building and raising
+                raise err
 
         class Fl:
             async def on_get(self, req, resp, v):
@@ -245,7 +261,9 @@ def build_app(asgi=False, flaky=False, variant=0, applock=False):
                 resp.media = common(req, 'admin', what=what)
 
         def na_handler(req, resp, ex, params):
-            ex.description = req.get_header('X-Tok')          # handlers do annotate the error they were given
+            seen = sorted((k, str(v)) for k, v in params.items())
+            params['trace'] = req.get_header('X-Tok')          # handlers do annotate what they were given
+            ex.description = '%s %r' % (req.get_header('X-Tok'), seen)
             raise ex
     else:
         class Admin:
@@ -255,12 +273,15 @@ def build_app(asgi=False, flaky=False, variant=0, applock=False):
 
         async def na_handler(req, resp, ex, params):
             import asyncio
-            ex.description = req.get_header('X-Tok')
+            seen = sorted((k, str(v)) for k, v in params.items())
+            params['trace'] = req.get_header('X-Tok')
+            ex.description = '%s %r' % (req.get_header('X-Tok'), seen)
             await asyncio.sleep(0)
             raise ex
     app.add_route('/admin/{what}', Admin())
     if variant % 2 == 0:
         app.add_error_handler(falcon.HTTPMethodNotAllowed, na_handler)
+        app.add_error_handler(falcon.HTTPNotFound, na_handler)      # unrouted requests too
     return app
 
 
@@ -688,17 +709,25 @@ def run(rec):
     sched.install()
     try:
         # ---- phase A: exhaustive, preemption bounded
-        setups = [(2, 1, False, 0), (2, 2, False, 1), (2, 1, True, 0), (2, 1, 'lock', 0)]
+        setups = [(2, 1, False, 0), (2, 2, False, 1), (2, 1, True, 0), (2, 1, 'lock', 0), (2, 2, 'err2', 0), (2, 1, 'miss2', 0)]
         if not quick:
             setups += [(3, 1, False, 1), (3, 2, False, 0), (2, 2, True, 1), (3, 1, True, 0), (2, 2, 'lock', 1), (3, 1, 'lock', 0)]
         total_a = 0
         for si, (nthreads, maxp, flaky, variant) in enumerate(setups):
             base_rng = __import__('random').Random(1000 + si)          # same requests in every shard
             applock = flaky == 'lock'
+            special = flaky if flaky in ('err2', 'miss2') else None
             flaky = flaky is True
             reqs = gen_requests(base_rng, nthreads, with_flaky=flaky)
             if flaky:
                 reqs[0]['path'] = '/fl/first'
+            if special:
+                # both requests end in an error object built by the application / in the not-found path whose
+                # custom handler annotates the params it is handed
+                for j, r in enumerate(reqs):
+                    r.update(method='GET', path=('/err/4%02d' % (9 + j)) if special == 'err2' else '/nothing/%d' % j, body=b'')
+                    r['headers'] = [h for h in r['headers'] if h[0] != 'Content-Type']
+                rec.count('cls.error_object_setups')
             if applock:
                 # one request whose converter needs the application's lock, one that holds that lock from
                 # process_request to process_response (user code blocking inside the routing of a first request)
@@ -989,6 +1018,7 @@ def run(rec):
     rec.floor('mon.serial_equivalence.A2', 20)
     rec.floor('mon.follow_up_after_set', 20)
     rec.floor('cls.application_lock_setups', 1)
+    rec.floor('cls.error_object_setups', 1)
     rec.floor('mon.serial_equivalence.B', 10)
     rec.floor('mon.serial_equivalence.D', 20)
     rec.floor('mon.serial_equivalence.S', 100)
